@@ -48,6 +48,7 @@ def trapExitCode : TrapKind → String
   | .oobTable => "ExitCodeTableOutOfBounds"
   | .nullTable => "ExitCodeIndirectCallNullPointer"
   | .sigMismatch => "ExitCodeIndirectCallTypeMismatch"
+  | .unaligned => "ExitCodeUnalignedAtomic"
 
 def classErr : ErrClass → String × String
   | .unreachable => ("ErrRuntimeUnreachable", "unreachable")
